@@ -182,8 +182,27 @@ func (p *Plugin) ValidateConfig(ctx context.Context, in *adminapi.ValidateConfig
 	return st.CloseAndRecv()
 }
 
+// incPlugin is the client one incarnation holds: calls of a stopped process go nowhere. (The reconcilers derive their
+// contexts from context.Background(), so a goroutine of a dead incarnation that wakes up late would otherwise still have a
+// document validated - and recorded under whatever task happens to be active then.)
+type incPlugin struct {
+	*Plugin
+	inc context.Context
+}
+
+func (p *incPlugin) ValidateConfig(ctx context.Context, in *adminapi.ValidateConfigRequest, opts ...grpc.CallOption) (*adminapi.ValidateConfigResponse, error) {
+	st := &valStream{p: p.Plugin, ctx: ctx, inc: p.inc}
+	_ = st.Send(&adminapi.ValidateConfigRequestChunk{Json: in.Json})
+	return st.CloseAndRecv()
+}
+
+func (p *incPlugin) ValidateConfigChunked(ctx context.Context, opts ...grpc.CallOption) (adminapi.ModelPluginService_ValidateConfigChunkedClient, error) {
+	return &valStream{p: p.Plugin, ctx: ctx, inc: p.inc}, nil
+}
+
 type valStream struct {
 	p      *Plugin
+	inc    context.Context
 	ctx    context.Context
 	buf    []byte
 	chunks []int
@@ -203,9 +222,12 @@ func (s *valStream) CloseAndRecv() (*adminapi.ValidateConfigResponse, error) {
 		s.p.Docs = append(s.p.Docs, &PluginDoc{Step: s.p.k.StepN, Task: s.p.k.Active, Bytes: s.buf, Chunks: s.chunks, Valid: valid})
 		s.p.mu.Unlock()
 		resp = &adminapi.ValidateConfigResponse{Valid: valid, Message: msg}
-	}, s.ctx)
+	}, s.ctx, s.inc)
 	if !ok {
-		return nil, s.ctx.Err()
+		if s.ctx.Err() != nil {
+			return nil, s.ctx.Err()
+		}
+		return nil, context.Canceled
 	}
 	return resp, nil
 }
